@@ -364,12 +364,27 @@ func init() {
 			After: func(w *world.World, path []int, pre interface{}, obs string) {
 				atomic.AddInt64(&stateCases, 1)
 				vs := c06Compare(w.Engine.Catalog(), world.RoundTrip, false)
+				// what the store was handed last is what clients see (so that a restart returns exactly the visible state)
+				if w.Store != nil && w.Store.Stores > 0 {
+					if a, b := c06Dump(w.Engine.Catalog()), c06Dump(w.Store.Catalog); a != b {
+						vs = append(vs, [2]string{"persisted-differs-from-visible", "the catalog handed to the store differs from the published one:\n" + firstDiff(a, b)})
+					}
+				}
 				if len(vs) > 0 {
 					names := e1.Names(alpha, path)
 					report("states", vs, "after "+strings.Join(names, " ; "), map[string]interface{}{"calls": names})
 				}
 			}}
 		st := e1.BFS(cfg)
+		// the same on a database whose change log holds aged events and whose retention trims at every commit
+		aged := cfg
+		aged.Depth = 2
+		aged.New = func() *world.World { return c09NewWorld(true) }
+		st2 := e1.BFS(aged)
+		st.States += st2.States
+		st.Transitions += st2.Transitions
+		st.Exhaustive = st.Exhaustive && st2.Exhaustive
+		r.Set("states_with_trimming_retention", st2.States)
 		r.Set("value_cases", valueCases)
 		r.Set("value_cases_rejected_at_insert", rejected)
 		r.Set("index_option_cases", indexCases)
